@@ -110,19 +110,25 @@ func (x *c19Ctx) awaitResult(call string, ch <-chan gnet.RegisteredResult, peerS
 			}
 			x.key(call + "|result|" + map[bool]string{true: "conn", false: "error"}[rr.Conn != nil])
 		case <-time.After(4 * time.Second):
-			// bounded: a still blocked delivery with two identical goroutine dumps is a hang
-			d1 := vlib.NormalizeDump(vlib.GoroutineDump())
+			// bounded: once the engine has shut down no loop exists that could still run the registration task, so a
+			// channel that is still silent then can never deliver (state-based, no wall-clock verdict)
+			for k := 0; k < 200 && x.state.Load() != stDown; k++ {
+				select {
+				case <-ch:
+					return
+				case <-time.After(100 * time.Millisecond):
+				}
+			}
 			select {
 			case <-ch:
 				return
 			case <-time.After(1500 * time.Millisecond):
 			}
-			d2 := vlib.NormalizeDump(vlib.GoroutineDump())
 			x.hung.Add(1)
-			if d1 == d2 || x.state.Load() == stDown {
-				res.Violate("C19 "+call+" result never delivered", fmt.Sprintf("%s returned a channel and no error; 5.5s later the channel has delivered nothing and is not closed (engine state %s)", call, stName(x.state.Load())), map[string]any{"config": x.c.String(), "dump": trimDump(d2)})
+			if x.state.Load() == stDown {
+				res.Violate("C19 "+call+" result never delivered", fmt.Sprintf("%s returned a channel and no error; the engine has shut down meanwhile and the channel has delivered nothing and is not closed", call), map[string]any{"config": x.c.String()})
 			} else {
-				res.Inconc("c19: %s result pending after 8s, goroutines still moving", call)
+				res.Inconc("c19: %s result pending after 25s while the engine is %s", call, stName(x.state.Load()))
 			}
 		}
 	}()
@@ -260,6 +266,8 @@ func runC19Case(c cfg, seed uint64, stopKind string, keys map[string]struct{}) i
 	}
 	// invalid arguments on an event loop are checked while running (below)
 	var loops sync.Map
+	slowClose := stopKind == "live" && seed%2 == 0
+	var slowDone atomic.Bool
 	mon := newMonitor("c19", hooks{
 		onOpen: func(cs *connState, gc gnet.Conn) ([]byte, gnet.Action) {
 			loops.Store(cs.loopIdx, gc.EventLoop())
@@ -269,11 +277,25 @@ func runC19Case(c cfg, seed uint64, stopKind string, keys map[string]struct{}) i
 			_, _ = gc.Discard(-1)
 			return gnet.None
 		},
-		onClose: func(cs *connState, gc gnet.Conn, err error) gnet.Action { return gnet.None },
+		onClose: func(cs *connState, gc gnet.Conn, err error) gnet.Action {
+			// a shutdown that takes observable time: the first connection closed by the shutdown lingers in OnClose
+			if slowClose && x.state.Load() == stStopping && !slowDone.Swap(true) {
+				time.Sleep(700 * time.Millisecond)
+			}
+			return gnet.None
+		},
 	})
 	x.mon = mon
 	vsys.ResetAlarms()
 	vsys.ResetLedger()
+	vsys.PlanClear()
+	defer vsys.PlanClear()
+	if vsys.Shimmed && seed%3 == 0 {
+		// every third registration of an enrolled (dup'ed) descriptor fails: Register must then deliver an error
+		vsys.PlanSeed(seed)
+		vsys.PlanAdd(&vsys.Rule{Call: vsys.CEpollAdd, FD: -1, Class: "dup", Every: 3, Action: vsys.AErrno, Errno: unix.ENOMEM})
+		x.key("register-with-failing-epoll_ctl_add")
+	}
 	life, err := startServer(c, mon)
 	if err != nil {
 		res.Inconc("c19 %s: engine did not start: %v", c, err)
